@@ -1,6 +1,7 @@
 import Vet.Props.C10Regen
 import Vet.Props.C10
 import Vet.Props.Commands
+import Vet.Props.CommandsAsk
 #print axioms Vet.C10_update_preserves_success_partial
 #print axioms Vet.C10_no_new_conflict_partial
 #print axioms Vet.C10_required_contains_path
@@ -11,3 +12,5 @@ import Vet.Props.Commands
 #print axioms Vet.C10_regenerate_chains_partial
 #print axioms Vet.C10_commands_partial
 #print axioms Vet.Cmd.mode_not_regenerate
+#print axioms Vet.CertChain_ask_audit_mono
+#print axioms Vet.C10_certify_ask_keeps_passing
